@@ -50,7 +50,9 @@ def build_go(ctx, race=False):
         pass
     rc, out = sh(["go", "build", "-tags", "verif", "-o", BIN + "/", "./cmd/..."], cwd=GO, env=GOENV, timeout=900)
     ctx.oblige("harness builds against /repo working tree (go build -tags verif)", rc == 0, out)
-    return rc == 0
+    rc2, out2 = sh(["go", "build", "-o", os.path.join(BIN, "extract"), "."], cwd=os.path.join(ROOT, "go-extract"), env=GOENV, timeout=900)
+    ctx.oblige("extractor builds (go/packages, offline)", rc2 == 0, out2)
+    return rc == 0 and rc2 == 0
 
 
 def regen_tables(ctx):
